@@ -82,7 +82,7 @@ def check(prop, tier, seed, only=None, jobs=None, verbose=False):
     # size the tier by total wall time: scale partition budgets so that the worst case
     # (every partition uses its whole budget) stays within VERIF_QUICK_MIN / VERIF_THOROUGH_MIN minutes
     nworkers = jobs or int(os.environ.get("VERIF_JOBS", "0") or 0) or (os.cpu_count() or 4)
-    cap_min = float(os.environ.get("VERIF_THOROUGH_MIN", "50") if tier == "thorough" else os.environ.get("VERIF_QUICK_MIN", "6"))
+    cap_min = float(os.environ.get("VERIF_THOROUGH_MIN", "30") if tier == "thorough" else os.environ.get("VERIF_QUICK_MIN", "6"))
     total = sum(float(j.get("budget", 60)) for j in jobs_list)
     if total > 0 and total / nworkers > cap_min * 60:
         f = cap_min * 60 * nworkers / total
